@@ -377,6 +377,7 @@ ADAPTORS = {
     "std::option::Option::<T>::ok_or": "opt_ok_or",
     "std::option::Option::<T>::ok_or_else": "opt_ok_or_else",
     "std::option::Option::<T>::filter": "opt_filter",
+    "std::option::Option::<T>::take_if": "opt_take_if",
     "std::result::Result::<T, E>::map": "res_map",
     "std::result::Result::<T, E>::and_then": "res_and_then",
     "std::result::Result::<T, E>::unwrap_or_else": "res_unwrap_or_else",
@@ -716,6 +717,29 @@ class Desugar:
             body["blocks"][entry]["stmts"].insert(0, self.st(REF, {"k": "ref", "mut": False, "fake": False, "place": {"l": X, "p": [{"d": 1, "n": "Some"}, {"f": 0, "n": "0"}]}}, span))
             return entry
         self._two_way(body, blk, t, OPT, lambda X, done: done(_agg(OPT, "None", [])), some_arm)
+
+    def d_opt_take_if(self, body, blk, t, marks):
+        """o.take_if(p) with o: &mut Option<T>: if let Some(x) = o { if p(x) { return o.take() } } None"""
+        f = self.need_callable(body, t["args"][1], marks)
+        span, chain = t["span"], blk.get("inl", ())
+        dest, target = t["dest"]["l"], t["target"]
+        X = self.new_local(body, t["arg_tys"][0] if t.get("arg_tys") else "&mut ?")
+        deref = {"l": X, "p": ["*"]}
+        payload = {"l": X, "p": ["*", {"d": 1, "n": "Some"}, {"f": 0, "n": "0"}]}
+        R = self.new_local(body, "bool")
+        REF = self.new_local(body, "&mut ?")
+        none_b = self.new_block(body, [self.st(dest, _agg(OPT, "None", []), span)], self.goto(target, span), chain)
+        none_b2 = self.new_block(body, [self.st(dest, _agg(OPT, "None", []), span)], self.goto(target, span), chain)
+        take_b = self.new_block(body, [self.st(dest, _agg(OPT, "Some", [{"m": payload}]), span),
+                                       {"k": "assign", "place": copy.deepcopy(deref), "rv": _agg(OPT, "None", []), "span": span}], self.goto(target, span), chain)
+        sw = self.new_block(body, [], {"k": "switch", "discr": _mv(R), "discr_ty": "bool", "targets": [[0, none_b2]], "otherwise": take_b, "span": span}, chain)
+        entry = self.emit_callable(body, f, [_mv(REF)], R, sw, span, chain)
+        body["blocks"][entry]["stmts"].insert(0, self.st(REF, {"k": "ref", "mut": True, "fake": False, "place": copy.deepcopy(payload)}, span))
+        d = self.new_local(body, "isize")
+        u = self.unreachable(body, span)
+        blk["stmts"].append(self.use(X, t["args"][0], span))
+        blk["stmts"].append(self.st(d, {"k": "disc", "place": copy.deepcopy(deref)}, span))
+        blk["term"] = {"k": "switch", "discr": _mv(d), "discr_ty": "isize", "targets": [[0, none_b], [1, entry]], "otherwise": u, "span": span, "desugared": t.get("callee")}
 
     def d_res_map(self, body, blk, t, marks):
         f = self.need_callable(body, t["args"][1], marks)
